@@ -105,19 +105,26 @@ def make_body_read(nfrag, trips):
     return q
 
 
+CONTENT_TYPES = [None, "", "application/octet-stream", "application/json", "application/json; charset=utf-8",
+                 "application/x-www-form-urlencoded", "text/plain", "multipart/form-data", "multipart/form-data; boundary=b"]
+
+
 def make_request_body(a, c, nfrag):
     """Byte-level, through Request.body with real bytes (a, c concrete; fragmentation + threshold symbolic)."""
     data = bytes(range(65, 65 + a))
 
-    def q(t: int, f1: int, f2: int, f3: int):
+    def q(t: int, f1: int, f2: int, f3: int, ct: int):
         frags = [f1, f2, f3][:nfrag]
         assume(1 <= t <= 9)
+        assume(0 <= ct < len(CONTENT_TYPES))
         for f in frags:
             assume(1 <= f <= 8)
         s = stubs.SymStream(a, frags, data=data)
         env = {"wsgi.input": s, "REQUEST_METHOD": "POST"}
         if c is not None:
             env["CONTENT_LENGTH"] = str(c)
+        if CONTENT_TYPES[ct] is not None:        # the raw body is the same bytes whatever the declared media type
+            env["CONTENT_TYPE"] = CONTENT_TYPES[ct]
         rq = Request(env, config={"max_memfile_size": t})
         try:
             got = rq.body.read()
@@ -159,7 +166,7 @@ def queries(tier):
             if tier == "quick" and c is not None and abs((c or 0) - a) > 1 and c not in (0,):
                 continue
             out.append(Q("request_body/a%d/c%s" % (a, c), make_request_body(a, c, 2 if tier == "quick" else 3),
-                         "Request.body, %d real bytes available, Content-Length=%s, symbolic memfile threshold 1..9 and "
+                         "Request.body, %d real bytes available, Content-Length=%s, Content-Type one of the 9 listed (solver index), symbolic memfile threshold 1..9 and "
                          "%d short-read lengths 1..8" % (a, c, 2 if tier == "quick" else 3),
                          timeout=60 if tier == "quick" else 200, family="request_body", config={"a": a, "c": c}))
     return out
